@@ -1186,3 +1186,60 @@ Proof.
     apply existsb_exists in Ex. destruct Ex as [kf [Hin Hk]]. rewrite (IH kf Hin (H kf Hin)) in Hk. discriminate.
 Qed.
 Close Scope string_scope.
+
+(* ====================================================================================== *)
+(* combine_trees writes only to dictionaries it allocated itself (purity clause of C18)    *)
+(* ====================================================================================== *)
+Definition pure_rel (N : nat) (h h' : heap) : Prop :=
+  length h <= length h' /\ forall l, l < N -> lookup h' l = lookup h l.
+
+Lemma pure_rel_trans : forall N h1 h2 h3, N <= length h1 -> pure_rel N h1 h2 -> pure_rel N h2 h3 -> pure_rel N h1 h3.
+Proof. intros N h1 h2 h3 HN [L1 F1] [L2 F2]. split; [lia|]. intros l Hl. rewrite F2 by assumption. apply F1. assumption. Qed.
+
+Lemma combine_store_pure : forall ret N h k x h', N <= ret -> combine_store ret h k x = Some h' -> pure_rel N h h'.
+Proof.
+  intros ret N h k x h' HN Hs. unfold combine_store in Hs. destruct (lookup h ret) as [[| |t es|]|]; try discriminate.
+  inversion Hs; subst. split; [rewrite length_upd; lia|]. intros l Hl. apply lookup_upd_other. lia.
+Qed.
+
+Lemma combine_loop_pure : forall rec bes ret N,
+  N <= ret ->
+  (forall h bl cl h1 x, N <= length h -> rec h bl cl = Some (h1, x) -> pure_rel (length h) h h1) ->
+  forall ces h h', N <= length h -> combine_loop rec bes ret ces h = Some h' -> pure_rel N h h'.
+Proof.
+  intros rec bes ret N HN Hrec. induction ces as [|[k v] r IH]; intros h h' Hh Hl; simpl in Hl.
+  - inversion Hl; subst. split; auto.
+  - match type of Hl with match ?X with _ => _ end = _ => destruct X as [h2|] eqn:E1; [|discriminate] end.
+    assert (P1 : pure_rel N h h2).
+    { destruct (assoc pyval_eqb k bes) as [bv|]; [|exact (combine_store_pure ret N h k v h2 HN E1)].
+      destruct (is_dict h bv && is_dict h v); [|exact (combine_store_pure ret N h k v h2 HN E1)].
+      destruct bv as [|bl]; [discriminate|]. destruct v as [|cl]; [discriminate|].
+      destruct (rec h bl cl) as [[h1 x]|] eqn:Er; [|discriminate].
+      destruct (Hrec h bl cl h1 x Hh Er) as [L1 F1].
+      apply (pure_rel_trans N h h1 h2 Hh); [|exact (combine_store_pure ret N h1 k x h2 HN E1)].
+      split; [assumption|]. intros l Hl'. apply F1. lia. }
+    eapply pure_rel_trans; [exact Hh|exact P1|]. apply IH; [|assumption]. destruct P1. lia.
+Qed.
+
+(* combine_pure: no location that existed before the call is written, whatever the two trees share *)
+Theorem combine_pure : forall d h base child h' v, hcombine d h base child = Some (h', v) ->
+  length h <= length h' /\ forall l, l < length h -> lookup h' l = lookup h l.
+Proof.
+  induction d as [|d IH]; intros h base child h' v Hc; simpl in Hc; [discriminate|].
+  destruct (lookup h base) as [[| |tb bes|]|]; try discriminate.
+  destruct (lookup h child) as [[| |tc ces|]|]; try discriminate.
+  destruct (combine_loop (hcombine d) bes (length h) ces (h ++ [ODict None bes])) as [h1|] eqn:El; [|discriminate].
+  inversion Hc; subst h' v.
+  assert (Hlen : length (h ++ [ODict None bes]) = S (length h)) by (rewrite app_length; simpl; lia).
+  destruct (combine_loop_pure (hcombine d) bes (length h) (length h) (le_n _)
+              ltac:(intros h0 bl cl h2 x _ E; exact (IH h0 bl cl h2 x E)) ces (h ++ [ODict None bes]) h1 ltac:(rewrite Hlen; lia) El) as [L F].
+  split; [lia|]. intros l Hl. rewrite F by assumption. apply lookup_app_l. assumption.
+Qed.
+
+Example combine_example :
+  run_hcombine (ADict [(PStr (sa "a"), ADict [(PStr (sa "x"), ALeaf (PInt 1))]); (PStr (sa "b"), ALeaf (PInt 2))],
+                ADict [(PStr (sa "a"), ADict [(PStr (sa "y"), AList [ALeaf (PInt 3)])])]) =
+  PTuple [PDict 0 [(PStr (sa "a"), PDict 0 [(PStr (sa "x"), PInt 1); (PStr (sa "y"), PList 0 [PInt 3])]); (PStr (sa "b"), PInt 2)];
+          PDict 0 [(PStr (sa "a"), PDict 0 [(PStr (sa "x"), PInt 1)]); (PStr (sa "b"), PInt 2)];
+          PDict 0 [(PStr (sa "a"), PDict 0 [(PStr (sa "y"), PList 0 [PInt 3])])]].
+Proof. vm_compute. reflexivity. Qed.
